@@ -79,6 +79,10 @@ func checkC19(c c19Case) string {
 		}
 		return ""
 	}
+	// 0. writes whose destination breaks half way leave nothing behind for the next write
+	for k, f := range writerFormats {
+		_ = writeFormat(f, c.Spec.build(), &faultWriter{k: 3 + 41*k + len(c.Spec.Cues), mode: k % 3})
+	}
 	// 1. 50 repetitions in this process, on freshly built lists (new maps) and on the same list
 	for rep := 0; rep < 50; rep++ {
 		t := s
